@@ -7,12 +7,15 @@ from harness import core, diskimg
 OPT_NAMES = ('binary_headers', 'binary_shape', 'binary_data', 'boxes_coordinates')
 
 
-def impl_taste(path, limit, opts, nofail):
+def impl_taste(path, limit, opts, nofail, verbose=0):
     """-> ('good' | 'bad' | 'raised', detail)"""
     from amr_kitchen.taste.taste import Taster
+    import contextlib
+    import io
     kw = dict(zip(OPT_NAMES, opts))
     try:
-        t = Taster(path, limit_level=limit, nofail=nofail, verbose=0, **kw)
+        with contextlib.redirect_stdout(io.StringIO()):
+            t = Taster(path, limit_level=limit, nofail=nofail, verbose=verbose, **kw)
         return ('good' if bool(t) else 'bad', '')
     except BaseException as e:
         if isinstance(e, KeyboardInterrupt):
